@@ -164,6 +164,46 @@ func H_C15_getTemplate() {
 	c15CheckSeen(c.seen, want, "cache")
 }
 
+// H_C15_backslash: names containing backslashes (every byte arbitrary, at least one '\\'),
+// given to GetTemplate and to a run-time computed include / exec / includeIfExists from a
+// template in a sub-directory: whatever a backslash means on the platform (an ordinary
+// byte here; a separator elsewhere), every path reaching the Loader and the Cache is
+// absolute, slash-separated and lexically clean. (Equality with the reference resolution is
+// claimed for backslash-free names only, by the other harnesses.)
+//
+//gosym:reach lookup-done
+func H_C15_backslash() {
+	l := &c15Loader{files: map[string]string{}}
+	c := &c15Cache{m: map[string]*Template{}}
+	set := NewSet(l, WithCache(c))
+	name := ndName("name", c15NameLen())
+	vfAssume(hxContains(name, "\\"))
+	form := ndChoice("form", 4)
+	if form == 0 {
+		set.GetTemplate(name)
+	} else {
+		src := []string{"", `{{include n}}`, `{{exec(n)}}`, `{{includeIfExists(n)}}`}[form]
+		t, err := set.Parse("/d/e/main.jet", src)
+		if err != nil {
+			vfAssert(false, "skeleton parses")
+			return
+		}
+		l.seen, c.seen = nil, nil
+		vars := make(VarMap)
+		vars.Set("n", name)
+		var buf bytes.Buffer
+		t.Execute(&buf, vars, nil)
+	}
+	vfReach("lookup-done")
+	vfAssert(len(l.seen) > 0, "loader consulted")
+	for _, p := range l.seen {
+		vfAssert(cleanAbs(p), "loader: path is not clean and absolute")
+	}
+	for _, p := range c.seen {
+		vfAssert(cleanAbs(p), "cache: path is not clean and absolute")
+	}
+}
+
 // H_C15_include: {{include name}} / exec(name) / includeIfExists(name) with a run-time
 // computed symbolic name, from a template in a sub-directory: relative names resolve
 // against the including file's directory (include) or the root (exec, includeIfExists,
